@@ -8,7 +8,7 @@
    `S H V ids` — the specification set: ineligible inputs unchanged, filled target voxels, members of unfilled target voxels unchanged;
    `wfz i` — zooms and x, y non-negative (weaker than `valid`; no bound on list length, zooms or indices anywhere). *)
 From Coq Require Import ZArith List Lia Permutation String.
-From SID Require Import Base Str Ids Voxel ZoomCore Wire Merge MergeCheck MergeProof MergeRegion MergeIdem MergeCheckProof MergeApi MergeHelpers.
+From SID Require Import Base Str Ids Voxel ZoomCore Wire Merge MergeCheck MergeProof MergeRegion MergeIdem MergeCheckProof MergeApi MergeHelpers MergeHistory.
 Import ListNotations.
 Open Scope Z_scope.
 
@@ -282,6 +282,30 @@ Example C04_helper_sequence :
   is_dense fin 7 = true /\ is_dense fin 8 = true /\ is_dense fin 0 = false /\ List.length (hunits fin 0) = 7%nat /\
   script_prop ex_units ex_highs ex_ops [(O, 5, 3, 4)] (script_model ex_units ex_highs ex_ops [(O, 5, 3, 4)]) = true.
 Proof. exact ex_sequence. Qed.
+
+(* ---- 14. Histories. The model of every function C04 is anchored in is a pure function of the call's own arguments, so in ANY history
+   of calls (valid or invalid, repeated, with any other calls before and after, whatever the caller does to its own slices and objects
+   in between — none of that is an argument) a step gets the answer it gets as a standalone call. This is why the dispatch entry
+   MergeHistory judges every step of a call sequence on the real code exactly like a single fresh call: an implementation whose answer
+   depends on earlier calls (memo keyed on part of the arguments, key stored before validation, result aliasing library state or the
+   caller's input, scratch buffer not reset) differs from the model at some step. ---- *)
+Theorem C04_answers_do_not_depend_on_history : forall pre s post,
+  nth_error (run_history (pre ++ s :: post)) (List.length pre) = Some (step_model s).
+Proof. exact history_independent. Qed.
+Print Assumptions C04_answers_do_not_depend_on_history.
+
+Theorem C04_same_call_same_answer_in_any_two_histories : forall pre1 post1 pre2 post2 s,
+  nth_error (run_history (pre1 ++ s :: post1)) (List.length pre1) = nth_error (run_history (pre2 ++ s :: post2)) (List.length pre2).
+Proof. exact history_same_step. Qed.
+Print Assumptions C04_same_call_same_answer_in_any_two_histories.
+
+(* non-vacuity: bad target zoom, the same list at two other zooms, a malformed list, the first valid call again, Higher, a spatial ID *)
+Example C04_history :
+  run_history [SExt ["1/0/0/1/-1"; "1/0/0/1/-2"] 1 36; SExt ["1/0/0/1/-1"; "1/0/0/1/-2"] 1 0; SExt ["1/0/0/1/-1"; "1/0/0/1/-2"] 1 1;
+               SExt ["bad"] 1 0; SExt ["1/0/0/1/-1"; "1/0/0/1/-2"] 1 0; SHigher "3/5/5/3/-2" 1 1; SSid ["1/0/0/0"] 0]%string
+  = [AList Err; AList (Ok ["1/0/0/0/-1"]); AList (Ok ["1/0/0/1/-1"; "1/0/0/1/-2"]); AList Err; AList (Ok ["1/0/0/0/-1"]);
+     AStr (Some "2/2/2/2/-1"); AList (Ok ["1/0/0/0"])]%string.
+Proof. exact history_example. Qed.
 
 (* ---- non-vacuity ---- *)
 (* the two halves on either side of ground level are NOT fused (the defect repaired by 27792ec), two halves below ground are *)
